@@ -81,18 +81,20 @@ VARIABLES fs,     \* [marker, index, cas, tmps, dirs]   the directory
           ctl     \* [phase, crashes, scen, res]
 vars == <<fs, pr, ctl>>
 
-MaxT == 9     \* thread slots (1 = the caller's goroutine)
+MaxT == 11    \* thread slots (1 = the caller's goroutine)
 Thr == 1..MaxT
 
 (* ------------------------------ catalogue ------------------------------ *)
 Images == {"M1", "M2", "M3"}
 Arts == {"A1", "A2"}
 RLs == {"RL0", "RLa", "RLb", "RLab"}
-Manifests == Images \cup Arts \cup RLs \cup {"IX"}
+Lists == {"IX", "IB", "IN"}     \* IX: index of two images; IB: cache export, its entries are BLOBS (two layers and a
+                               \* cache config), not manifests; IN: an index whose only entry is the index IX
+Manifests == Images \cup Arts \cup RLs \cup Lists
 RLSet(o) == CASE o = "RLa" -> {"A1"} [] o = "RLb" -> {"A2"} [] o = "RLab" -> {"A1", "A2"} [] OTHER -> {}
 RLName(s) == CASE s = {"A1"} -> "RLa" [] s = {"A2"} -> "RLb" [] s = {"A1", "A2"} -> "RLab" [] OTHER -> "RL0"
 Children(o) == CASE o = "M1" -> {"C1", "L1", "L2"} [] o = "M2" -> {"C2", "L1", "L3"} [] o = "M3" -> {"C3", "L4"}
-                 [] o = "IX" -> {"M1", "M2"} [] o = "A1" -> {"CE", "LA"} [] o = "A2" -> {"CE", "LB"}
+                 [] o = "IX" -> {"M1", "M2"} [] o = "IB" -> {"LC1", "LC2", "CC"} [] o = "IN" -> {"IX"} [] o = "A1" -> {"CE", "LA"} [] o = "A2" -> {"CE", "LB"}
                  [] o \in RLs -> RLSet(o) [] OTHER -> {}
 Subject(o) == IF o \in Arts THEN "M1" ELSE ""
 Chunks(o) == CASE o = "L1" -> 2 [] o = "L4" -> 3 [] o = "L0" -> 0 [] o = "LK1" -> 2 [] OTHER -> 1   \* write calls (32 KiB copy buffer)
@@ -233,7 +235,7 @@ Exp(h) ==
          LET refs == h.s # {}
              has == IF h.t # "" THEN HeadTag(h.t) ELSE HeadDig(h.o)
              same == has /\ (IF h.t # "" THEN fs.index.tags[h.t] = h.o ELSE TRUE)
-             descend == ~same \/ h.o = "IX"                       \* mSrc is fetched: differing digest or a list
+             descend == ~same \/ h.o \in Lists                    \* mSrc is fetched: differing digest or a list
              kids == IF descend THEN Children(h.o) ELSE {}
              kprogs == {<<CopyM("", m, TRUE, refs)>> : m \in kids \cap Manifests}
                        \cup {<<InsO("CopyB", b)>> : b \in kids \ Manifests}
@@ -396,6 +398,8 @@ StartFS(s) ==
     [] s = "P1" -> Layout(T1("v1", "M1"), {}, Closure("M1"))
     [] s = "P2" -> Layout(T2("v1", "M1", "v2", "M2"), {}, Closure("M1") \cup Closure("M2"))
     [] s = "PX" -> Layout(T2("v1", "M1", "ix", "IX"), {}, Closure("IX"))
+    [] s = "PB" -> Layout([x \in {"v1", "cache", "nest"} |-> CASE x = "v1" -> "M1" [] x = "cache" -> "IB" [] OTHER -> "IN"], {},
+                          Closure("M1") \cup Closure("IB") \cup Closure("IN"))
     [] s = "PR" -> Layout(T2("v1", "M1", Fb("M1"), "RLa"), {}, Closure("M1") \cup Closure("RLa"))
     [] s = "PR2" -> Layout(T2("v1", "M1", Fb("M1"), "RLab"), {"A2"}, Closure("M1") \cup Closure("RLab"))
     [] s = "PT" -> [Layout(T2("v1", "M1", "v2", "M2"), {}, Closure("M1") \cup Closure("M2") \cup {"L4"})
